@@ -111,6 +111,7 @@ func (e *Eng) evalCall(st *State, call *ast.CallExpr) []*Val {
 }
 
 func (e *Eng) evalCallInner(st *State, call *ast.CallExpr) []*Val {
+	e.curPos = call.Pos()
 	fun := ast.Unparen(call.Fun)
 	// conversion?
 	if tv, ok := e.info.Types[fun]; ok && tv.IsType() {
@@ -119,6 +120,23 @@ func (e *Eng) evalCallInner(st *State, call *ast.CallExpr) []*Val {
 	// builtin?
 	if id, ok := fun.(*ast.Ident); ok {
 		if _, isB := e.info.ObjectOf(id).(*types.Builtin); isB {
+			if cls, text := e.anchorClauses(call); len(cls) > 0 {
+				var args []*Val
+				for _, a := range call.Args {
+					args = append(args, e.eval(st, a))
+				}
+				e.lastArgs = args
+				env := e.specEnvFromState(st)
+				for i, a := range args {
+					env[fmt.Sprintf("arg%d", i)] = a
+				}
+				for _, c := range cls {
+					if c.Kind == "requires" {
+						g := e.evalSpec(st, c.Expr, env, e.oldEnv)
+						e.oblige(st, "at", text+" requires "+c.Src, g.T, call.Pos())
+					}
+				}
+			}
 			return e.evalBuiltin(st, id.Name, call)
 		}
 	}
@@ -169,6 +187,10 @@ func (e *Eng) evalCallInner(st *State, call *ast.CallExpr) []*Val {
 				}
 			}
 		}
+	}
+	if recv != nil && recv.Sort == "Iface" && e.con != nil && e.con.NoPanic {
+		// a method call on a nil interface value panics
+		e.oblige(st, "nopanic", "nil-interface-call "+e.src(call.Fun), "(not (= (itag "+recv.T+") 0))", call.Pos())
 	}
 	for i, a := range call.Args {
 		v := e.eval(st, a)
@@ -249,6 +271,9 @@ func (e *Eng) evalCallInner(st *State, call *ast.CallExpr) []*Val {
 		if e.con != nil && e.con.Pure {
 			e.oblige(st, "pure", "callee-unknown "+shortKey(key), "false", call.Pos())
 		}
+		if e.con != nil && e.con.HasFrame {
+			e.oblige(st, "modifies", "callee-unknown "+shortKey(key), "false", call.Pos())
+		}
 		e.havocHeap(st)
 		return results
 	}
@@ -257,6 +282,25 @@ func (e *Eng) evalCallInner(st *State, call *ast.CallExpr) []*Val {
 	}
 	if e.con != nil && e.con.Pure && !con.Pure {
 		e.oblige(st, "pure", "callee-not-pure "+shortKey(key), "false", call.Pos())
+	}
+	if e.con != nil && e.con.HasFrame && !con.Pure {
+		ok := con.HasFrame
+		if ok {
+			for _, m := range con.Modifies {
+				found := false
+				for _, mine := range e.con.Modifies {
+					if mine == m {
+						found = true
+					}
+				}
+				if !found {
+					ok = false
+				}
+			}
+		}
+		if !ok {
+			e.oblige(st, "modifies", "callee-frame-not-included "+shortKey(key), "false", call.Pos())
+		}
 	}
 	env := map[string]*Val{}
 	for i := 0; i < sig.Params().Len() && i < len(args); i++ {
@@ -283,7 +327,11 @@ func (e *Eng) evalCallInner(st *State, call *ast.CallExpr) []*Val {
 	preState := st
 	if !con.Pure {
 		preState = st.clone()
-		e.havocHeap(st)
+		if con.HasFrame {
+			e.havocFrame(st, con.Modifies)
+		} else {
+			e.havocHeap(st)
+		}
 	}
 	savedOld := e.oldState
 	e.oldState = preState
